@@ -171,7 +171,7 @@ func runWorkload(wl Workload) []Window {
 		go func() { wg.Wait(); close(donec) }()
 		select {
 		case <-donec:
-		case <-time.After(20 * time.Second):
+		case <-time.After(6 * time.Second):
 			// deadlock or livelock: report what completed; the tree is abandoned
 			mu.Lock()
 			w := Window{S0: s0, Ops: append([]WOp{}, wops...), Hung: true}
